@@ -73,11 +73,31 @@ func driveBare(t *testing.T, prop string, kinds []int, nCases, nOps int) {
 						b := s.Bins()[fl]
 						binB, binL = b[0], b[1]
 					}
+					s.Reg.Log = nil
 					tok, ok := s.Strat.TryAcquire(s.Ctx(key))
 					if ok != tok.IsAcquired() {
 						fail("token-flag", "IsAcquired disagrees with ok")
 					}
-					obs := append([]int64{B(ok), int64(tok.InFlightCount())}, s.State()...)
+					obs := []int64{B(ok), int64(tok.InFlightCount()), int64(len(s.Reg.Log))}
+					for _, e := range s.Reg.Log {
+						obs = append(obs, int64(fb(e.Bits)))
+						if e.Kind != 2 {
+							fail("metric-kind", fmt.Sprintf("in-flight sample registered as kind %d", e.Kind))
+						}
+					}
+					// C20: the in-flight sample equals the in-flight count at the admission decision
+					if kind <= 2 {
+						want := busy0
+						if ok {
+							want = busy0 + 1
+						}
+						if len(s.Reg.Log) != 1 || int64(fb(s.Reg.Log[0].Bits)) != want {
+							fail("inflight-sample", fmt.Sprintf("TryAcquire with %d in flight (ok=%v) emitted in-flight samples %v", busy0, ok, s.Reg.Log))
+						}
+					} else if ok && (len(s.Reg.Log) != 1 || (fl >= 0 && int64(fb(s.Reg.Log[0].Bits)) != binB+1)) {
+						fail("partition-inflight-sample", fmt.Sprintf("grant to a partition with %d in flight emitted %v", binB, s.Reg.Log))
+					}
+					obs = append(obs, s.State()...)
 					tr.Op(1, []int64{key}, obs)
 					hist = append(hist, []int64{1, key})
 					rep.Evaluations++
@@ -194,6 +214,19 @@ func driveBare(t *testing.T, prop string, kinds []int, nCases, nOps int) {
 					rep.Count(name + ".remove-partition")
 				default:
 					continue
+				}
+				// C20: limit gauges report the currently enforced values
+				for name, sup := range s.Reg.Gauges {
+					v, _ := sup()
+					if name == "limit" && int64(v) != s.Limit() {
+						fail("limit-gauge", fmt.Sprintf("limit gauge reports %v, the strategy enforces %d", v, s.Limit()))
+					}
+				}
+				for bi, b := range s.Bins() {
+					if sup, ok := s.Reg.Gauges["limit.partition|partition:"+keyName(s.Live[bi].key)]; ok && kind == 4 {
+						_ = sup // partition gauges are keyed by name: overlapping names collapse (observed, outside the statement)
+					}
+					_ = b
 				}
 				// invariants after every operation
 				var outstanding int64
